@@ -67,6 +67,29 @@ def serial_scenarios(seed, n, prop="c15"):
     return scs
 
 
+def hasseb_scenarios(seed, n, prop="c15"):
+    rng = random.Random(seed + 299)
+    scs = []
+    for k in range(n):
+        callers = []
+        for ci in range(rng.choice([1, 2, 2, 3])):
+            unit = [[rng.choice(["dapc", "q16", "cfg", "qdt6", "cfgdt6", "yn16", "st16"]), 8 * ci + j + 1]
+                    for j in range(rng.randrange(1, 4))]
+            c = {"name": "ABC"[ci], "mode": rng.choice(["send", "sequence"]), "unit": unit,
+                 "start": rng.choice([{"time": 0.0}, {"writes": rng.randrange(1, 6)}, {"reports": rng.randrange(1, 8)}])}
+            if prop == "c17" and rng.random() < 0.35:
+                c["cancel"] = rng.choice([{"writes": rng.randrange(1, 8)}, {"reports": rng.randrange(1, 10)}])
+            callers.append(c)
+        nout = sum(len(c["unit"]) for c in callers) * 2 + 2
+        outcomes = []
+        for j in range(nout):
+            r = rng.random()
+            outcomes.append(["val", 10 + j] if r < 0.7 else ["none", 0] if r < 0.9 else ["err", 0])
+        scs.append({"driver": "hasseb", "callers": callers, "trace_events": 1, "outcomes": outcomes,
+                    "release_plan": [rng.choice([0, 1, 1, 2, -1]) for _ in range(rng.randrange(0, 30))], "tag": "htrace:%d" % k})
+    return scs
+
+
 def to_trace(r):
     """projection of one recorded run onto the trace format read by AsyncTrace.tla"""
     callers = [{"name": c["name"], "mode": c["mode"], "exceptions": c["exceptions"],
@@ -75,7 +98,8 @@ def to_trace(r):
     lim = r["scenario"].get("reconnect_limit")
     return {"callers": callers, "limit": -1 if lim is None else lim, "tag": r["scenario"].get("tag"), "id": r.get("id", 0),
             "driver": r["scenario"]["driver"], "conf_per_twice": 1 if r["scenario"]["driver"] == "sci" else 2,
-            "events": [e for e in r["events"] if "c" not in e or e["c"] in known]}
+            "events": [e for e in r["events"] if ("c" not in e or e["c"] in known)
+                       and (r["scenario"]["driver"] == "tridonic" or e["ev"] not in ("status", "deliver_info"))]}
 
 
 def record(sc):
@@ -92,7 +116,7 @@ def validate(traces, sc):
         with open(path, "w") as fh:
             json.dump({"callers": t["callers"], "events": t["events"], "limit": t["limit"],
                        "conf_per_twice": t.get("conf_per_twice", 2)}, fh)
-        module = "SerialTrace" if t.get("driver") in ("luba", "sci") else "AsyncTrace"
+        module = {"luba": "SerialTrace", "sci": "SerialTrace", "hasseb": "HassebTrace"}.get(t.get("driver"), "AsyncTrace")
         r = core.run_tlc(module, module + ".cfg", sc, env={"TRACE": path}, workers=1, timeout=300, tag="tr%d" % ix, xmx="1g")
         accepted = "Invariant NotConsumed is violated" in r.out
         maxl = 0
@@ -111,18 +135,22 @@ MODEL_CFGS = {
     "c15": [("MC_AsyncDriver", "AsyncDriver_c15.cfg", None), ("MC_AsyncDriver", "AsyncDriver_cancel.cfg", None),
             ("MC_AsyncDriver", "AsyncDriver_cancel_old.cfg", "NoAssertion"),
             ("MC_SerialDriver", "SerialDriver_plain.cfg", None), ("MC_SerialDriver", "SerialDriver_cancelq.cfg", None),
-            ("MC_SerialDriver", "SerialDriver_cancel_safe.cfg", None)],
+            ("MC_SerialDriver", "SerialDriver_cancel_safe.cfg", None),
+            ("MC_HassebDriver", "HassebDriver_plain.cfg", None), ("MC_HassebDriver", "HassebDriver_cancelq.cfg", None),
+            ("MC_HassebDriver", "HassebDriver_cancel_safe.cfg", None)],
     "c16": [("MC_AsyncDriver", "AsyncDriver_c15.cfg", None), ("MC_AsyncDriver", "AsyncDriver_cancel.cfg", None),
             ("MC_AsyncDriver", "AsyncDriver_loss.cfg", None),
             ("MC_SerialDriver", "SerialDriver_plain.cfg", None), ("MC_SerialDriver", "SerialDriver_silent.cfg", None),
             ("MC_SerialDriver", "SerialDriver_stale_fac.cfg", None),
             # flushing the answer queue (again) when the frame has been confirmed loses answers that arrived together
             # with the confirmation: the seeded change C16b at model level
-            ("MC_SerialDriver", "SerialDriver_plain_fac.cfg", "ExactPairing")],
+            ("MC_SerialDriver", "SerialDriver_plain_fac.cfg", "ExactPairing"),
+            ("MC_HassebDriver", "HassebDriver_plain.cfg", None)],
     "c17": [("MC_AsyncDriver", "AsyncDriver_loss.cfg", None), ("MC_AsyncDriver", "AsyncDriver_limit.cfg", None),
             ("MC_SerialDriver", "SerialDriver_silent.cfg", None), ("MC_SerialDriver", "SerialDriver_cancel_safe.cfg", None),
             # the known finding orphaned-answer-after-cancel at model level: cancellation in flight breaks NoCrossTalk
-            ("MC_SerialDriver", "SerialDriver_cancel.cfg", "NoCrossTalk")],
+            ("MC_SerialDriver", "SerialDriver_cancel.cfg", "NoCrossTalk"),
+            ("MC_HassebDriver", "HassebDriver_cancel_safe.cfg", None), ("MC_HassebDriver", "HassebDriver_cancel.cfg", "NoCrossTalk")],
 }
 THOROUGH_EXTRA = [("MC_AsyncDriver", "AsyncDriver_big.cfg", None)]
 
@@ -165,9 +193,10 @@ def conformance(out, recs, sc):
     drift = [(t, m) for t, (acc, m, n, st) in zip(traces, res) if not acc]
     out.states += sum(st for _, _, _, st in res)
     out.extra["model_conformance"] = {
-        "model": "AsyncDriver.tla via AsyncTrace.tla (Tridonic), SerialDriver.tla via SerialTrace.tla (LUBA, SCI)",
+        "model": "AsyncDriver.tla via AsyncTrace.tla (Tridonic), HassebDriver.tla via HassebTrace.tla, "
+                 "SerialDriver.tla via SerialTrace.tla (LUBA, SCI)",
         "traces": len(traces), "accepted": len(traces) - len(drift),
-        "traces_by_driver": {d: sum(1 for t in traces if t["driver"] == d) for d in ("tridonic", "luba", "sci")},
+        "traces_by_driver": {d: sum(1 for t in traces if t["driver"] == d) for d in ("tridonic", "hasseb", "luba", "sci")},
         "events": sum(len(t["events"]) for t in traces),
         "drift": [{"id": t["id"], "matched_prefix": m - 1, "next_events": t["events"][max(0, m - 2):m + 1]} for t, m in drift[:5]]}
     for t, m in drift[:5]:
